@@ -105,6 +105,30 @@ class MgrCoroContract(MgrContract):
         finally:
             it.entry_args = saved
 
+    def guarantee(self, it, pre, post, a):
+        # guarantee side of the rely: whatever happened between entry and exit (this coroutine's own writes and the
+        # interference it tolerated) respects every rely clause; INV1 is an invariant (kept if it held at entry)
+        m0, m1 = MV(pre, a.self), MV(post, a.self)
+        out = []
+        for n, f in self.rely_named(it, m0, m1):
+            if n.startswith('INV1'):
+                f = z3.Implies(inv_no_result_for_switch(m0), f)
+            out.append((f'guarantee:{n}', f))
+        return out
+
+    def ensures(self, it, pre, post, a, res):
+        return self.guarantee(it, pre, post, a) + list(self.extra_ensures(it, pre, post, a, res))
+
+    def with_guarantee(self, it, pre, a, cases):
+        """exceptional exits owe the same guarantee"""
+        for c in cases:
+            if c.ensures is None:
+                c.ensures = (lambda post, exc, _pre=pre, _a=a: self.guarantee(it, _pre, post, _a))
+        return cases
+
+    def extra_ensures(self, it, pre, post, a, res):
+        return []
+
     def on_yield(self, it, label):
         if it.entry_args is None or not hasattr(it.entry_args, 'self') or it.entry_args.self is None:
             return
@@ -182,7 +206,7 @@ class M_execute_node_inner(MgrCoroContract):
         ]
 
     def raises(self, it, pre, a):
-        return [ExcCase('node-failure-or-collaborator', None, may=True)]
+        return self.with_guarantee(it, pre, a, [ExcCase('node-failure-or-collaborator', None, may=True)])
 
     # ---- loop -----------------------------------------------------------------------
     @property
@@ -371,7 +395,7 @@ class CoroBase(MgrCoroContract):
     options = {'inject_cancel': True}
 
     def raises(self, it, pre, a):
-        return [ExcCase('cancelled', 'CancelledError', may=True)] + self.other_raises(it, pre, a)
+        return self.with_guarantee(it, pre, a, [ExcCase('cancelled', 'CancelledError', may=True)] + self.other_raises(it, pre, a))
 
     def other_raises(self, it, pre, a):
         return []
@@ -568,6 +592,7 @@ class M_raise_exc(MgrContract):
 # well-formedness of the (immutable) graph and of the node configuration — established by the builder (C15/C16)
 # and by the validity of the user's retry settings; precondition of every manager coroutine
 # ======================================================================================
+from pyvc.libmodels2 import SEQ_AT, SEQ_LEN      # noqa: E402
 ENGINE_NAMES = ('node', 'node_id', 'force_default')
 ADDL = mk_str('additional_data')
 
@@ -584,6 +609,9 @@ def wf_node(m, n):
         FA([p, p2], z3.Implies(z3.And(m.G.edge(p, n), m.G.edge(p2, n), m.G.kw(p, n) == m.G.kw(p2, n),
                                       m.G.kw(p, n) != NONE), p == p2)),
         FA([p], z3.Implies(m.G.edge(p, n), z3.And(m.G.kw(p, n) != ADDL, *[m.G.kw(p, n) != mk_str(x) for x in ENGINE_NAMES]))),
+        z3.Implies(m.G.is_head(n), FA([c], z3.Implies(
+            z3.And(c >= 0, c < SEQ_LEN(m.G.na('oneof_nodes', n))), m.G.node(SEQ_AT(m.G.na('oneof_nodes', n), c))),
+            patterns=[SEQ_AT(m.G.na('oneof_nodes', n), c)])),
         z3.Implies(z3.And(z3.Not(m.G.is_switch(n)), z3.Not(m.G.is_head(n))), z3.And(
             m.node_map.has(n), node != NONE,
             z3.Or(att == NONE, z3.And(PyV.is_int_(att), PyV.i(att) >= 0)),
@@ -1376,4 +1404,199 @@ class M_run_oneof(CoroBase):
                 z3.Not(sub.is_nested_oneof), PyV.ecls(e) == z3.IntVal(LATTICE.codes['OneOfDoesNotHaveResultError']))),
                 ('top-level-exhaustion-wakes-the-run-before-raising|C02', notifies(it, effects, 'run')),
                 ('top-level-exhaustion-stores-nothing|C10', not sets)]
+        return out
+
+
+# ======================================================================================
+# _run_recurrent_subgraph  (C11, C09, C02)
+# ======================================================================================
+RECERR = LATTICE.codes['RecurrentSubgraphDoesNotHaveResultError']
+OTHER_NODE = z3.Const('some_other_node', PyV)
+
+
+@contract
+class M_run_recurrent_subgraph(CoroBase):
+    name = 'DAGRunConcurrentManager._run_recurrent_subgraph'
+    returns = 'none'
+    yields = True
+    props = ('C11', 'C09', 'C10', 'C02', 'C05', 'C13', 'C07', 'C08', 'C04')
+    doc = ('re-runs the nodes between the start node and the destination at most max_iterations times, handing the '
+           'previous Recurrent data to the start node; ends at the first non-Recurrent result, at an error, or on '
+           'exhaustion with the default (if opted in) or RecurrentSubgraphDoesNotHaveResultError')
+
+    def setup(self, it):
+        st = it.st
+        m = new_manager(it)
+        d = new_subdag(it, m)
+        for ax in notif_axioms(MV(st.snapshot(), m)):
+            st.assume(ax)
+        st.ghost['notif_ax'] = True
+        return m, CallArgs([d, SymV(st.fresh_val('d')), SymV(st.fresh_val('res'))])
+
+    def start(self, m, d):
+        return m.G.na('start_node', d)
+
+    def max_iter(self, m, d):
+        return m.G.na('max_iterations', d)
+
+    def requires(self, it, pre, a):
+        m = self.mv(pre, a)
+        d = T(a.node_id, it.st)
+        s = self.start(m, d)
+        x = z3.Const('rqx', PyV)
+        return base_requires(m) + [
+            ('graph-well-formed', graph_wf(m)), ('switch-nodes-well-formed', switch_wf(m)),
+            ('destination-is-a-real-node', z3.And(m.G.node(d), z3.Not(m.G.is_switch(d)), z3.Not(m.G.is_head(d)))),
+            ('started-for-a-Recurrent-result|C11', PyV.is_rec(T(a.node_result, it.st))),
+            ('builder: start node recorded and in graph (C15)', m.G.node(s)),
+            ('builder: max_iterations is a natural number (C15)', z3.And(PyV.is_int_(self.max_iter(m, d)), PyV.i(self.max_iter(m, d)) >= 0)),
+            ('switch-inputs-resolved|C03,C09', switch_preds_resolved(m, d)),
+            ('the-graph-has-a-node-besides-the-destination', z3.And(m.G.node(OTHER_NODE), OTHER_NODE != d)),
+        ]
+
+    def other_raises(self, it, pre, a):
+        return [ExcCase('iterations-exhausted', 'RecurrentSubgraphDoesNotHaveResultError', may=True),
+                ('default-run-failed', None)][:1] + [ExcCase('default-run-failed', None, may=True)]
+
+    def iteration_clauses(self, it, pre, a, effs, prev_result):
+        st = it.st
+        m0 = self.mv(pre, a)
+        d = T(a.node_id, st)
+        s = self.start(m0, d)
+        sub = SubV(pre, a.dag)
+        runs = calls(effs, '._run_dag')
+        writes = [e for e in effs if e.kind == 'write' and isinstance(e.field, str) and e.field == 'na:additional_data']
+        out = []
+        ok = len(runs) == 1
+        out.append(('one-re-run-of-the-subgraph-per-iteration|C11', ok))
+        if not ok:
+            return out
+        r = runs[0]
+        g, snap = dag_arg_view(it, r)
+        kind = snap.getf(g, 'g_kind')
+        out.append(('the-re-run-scope-is-a-subgraph-view|C11', kind == 'sub'))
+        if kind == 'sub':
+            gv = SubV(snap, g)
+            out += [('re-run-scope-goes-from-the-start-node-to-the-destination|C11', z3.And(gv.source == s, gv.dest == d)),
+                    ('re-run-scope-is-recurrent-and-keeps-the-one-of-mode|C11,C10', z3.And(gv.is_recurrent, gv.is_oneof == sub.is_oneof)),
+                    ('re-run-scope-ignores-case-edges-and-untried-candidates (switch and one-of rules inside an iteration)|C09,C10,C11',
+                     snap.getf(g, 'g_fedge') is not None)]
+        ok = len(writes) == 1
+        out.append(('start-node-gets-the-previous-iteration-data|C11', ok and z3.simplify(z3.And(
+            T(writes[0].key, st) == s,
+            MV(snap, a.self).G.addl(s) == PyV.rdata(prev_result)))))
+        if ok:
+            out.append(('data-handed-over-before-the-re-run-starts|C11', effs.index(writes[0]) < effs.index(r)))
+        return out
+
+    @property
+    def loops(self):
+        outer = self
+
+        def inv(ctx):
+            it = ctx.it
+            m = MV(ctx.now(), ctx.a.self)
+            nr = T(ctx.var('node_result'), it.st)
+            return [('only-Recurrent-results-continue-the-loop|C11', PyV.is_rec(nr))] + \
+                   [(f'rely-since-entry:{n_}', f_) for n_, f_ in outer.rely_named(it, MV(ctx.pre, ctx.a.self), m)]
+
+        def heap_havoc(it, env):
+            return outer.shared_locs(it)
+
+        def ghost_init(it, env):
+            pass
+
+        def body_post(ctx):
+            it = ctx.it
+            effs = ctx.iter_effects
+            prev = ctx.st.ghost.get('ghost:prev_result')
+            out = outer.iteration_clauses(it, ctx.pre, ctx.a, effs, T(prev, it.st)) if prev is not None else []
+            runs = calls(effs, '._run_dag')
+            if runs and runs[0].exc is None:
+                res = T(runs[0].res, it.st)
+                errs = calls(effs, '__has_subgraph_error')
+                out.append(('continues-only-on-a-Recurrent-result-without-errors|C11', z3.And(
+                    PyV.is_rec(res), z3.BoolVal(bool(errs)))))
+            return out
+
+        sp = LoopSpec(text='range(max_iterations)', havoc={'node_result': 'val'}, heap_havoc=heap_havoc, inv=inv,
+                      body_post=body_post, ghost_init=ghost_init)
+        # remember the loop-head value of node_result for the iteration clauses
+        orig_havoc = sp._havoc
+
+        def havoc_and_remember(it, env):
+            orig_havoc(it, env)
+            found, v = env.lookup('node_result')
+            it.st.ghost['ghost:prev_result'] = v
+        sp._havoc = havoc_and_remember
+        return [sp]
+
+    def trace(self, it, pre, post, a, outcome, value, effects):
+        st = it.st
+        m0 = self.mv(pre, a)
+        d = T(a.node_id, st)
+        s = self.start(m0, d)
+        sub = SubV(pre, a.dag)
+        x = z3.Const('rsx', PyV)
+        pair = PyV.tup2(s, d)
+        marks = calls(effects, 'set_active_rec_subgraph')
+        out = []
+        if not marks:
+            out.append(('second-request-for-an-active-subgraph-does-nothing|C04,C11', z3.And(
+                m0.S.P.data.has(pair), z3.BoolVal(not [e for e in effects if is_work(e)]), z3.BoolVal(outcome == 'return'))))
+            return out
+        out.append(('subgraph-marked-active-before-any-yield|C04,C11', z3.And(
+            z3.Not(m0.S.P.data.has(pair)), PyV.tup2(T(marks[0].a.source, st), T(marks[0].a.dest, st)) == pair,
+            z3.BoolVal(not [e for e in effects[:effects.index(marks[0])] if e.kind == 'yield']))))
+        tail = tail_after_loop(effects)
+        in_iteration = bool(calls(tail, '._run_dag'))
+        prev = st.ghost.get('ghost:prev_result')
+        if in_iteration and prev is not None:
+            out += self.iteration_clauses(it, pre, a, tail, T(prev, st))
+        unmarks = calls(tail, 'delete_active_rec_subgraph')
+        defaults = calls(tail, '._run_node')
+        sets = calls(tail, 'set_node_result')
+        hides = calls(tail, 'hide_last_execution')
+        node = m0.node_map.at(d)
+        use_default = truthy_term(attr_fn('use_default')(node))
+        if in_iteration:
+            r = calls(tail, '._run_dag')[0]
+            if r.exc is None and outcome == 'return':
+                res = T(r.res, st)
+                errs = calls(tail, '__has_subgraph_error')
+                if unmarks:
+                    out.append(('stops-at-the-first-non-Recurrent-result|C11', z3.Not(PyV.is_rec(res))))
+                    out.append(('nothing-else-is-run-after-the-final-iteration|C11', not defaults and not sets))
+                else:
+                    out.append(('an-error-in-the-subgraph-ends-the-re-iteration|C11', bool(errs)))
+            return out
+        # ---- after the loop: iterations exhausted ---------------------------------------
+        final = st.ghost.get('ghost:prev_result')
+        if defaults:
+            dn = defaults[0]
+            out += [('default-only-if-opted-in-and-still-Recurrent|C11,C12', z3.And(use_default, PyV.is_rec(T(final, st)) if final is not None else True)),
+                    ('default-run-is-this-node-forced-to-default|C11', z3.And(T(dn.a.node_id, st) == d, B(dn.a.force_default))),
+                    ('default-run-in-the-scope-that-requested-the-subgraph|C10', dn.a.dag is a.dag),
+                    ('last-Recurrent-result-hidden-before-the-default-run|C11', len(hides) == 1 and z3.simplify(z3.And(
+                        hides[0].a.seq.len == 1, hides[0].a.seq.at(0) == d)) and tail.index(hides[0]) < tail.index(dn)),
+                    ('subgraph-unmarked-after-the-default-run|C04', (len(unmarks) == 1) if dn.exc is None else True)]
+            return out
+        e = None
+        if sets:
+            e = T(sets[0].a.data, st)
+            out += [('exhaustion-inside-a-one-of-stores-the-error-for-the-destination|C10,C11', z3.And(
+                sub.is_oneof, T(sets[0].a.node_id, st) == d)),
+                ('waiters-of-the-destination-released|C02', notifies(it, effects, a.node_id)),
+                ('consumers-released|C02', FA([x], z3.Implies(NOTIF(d, x), notifies(it, effects, x)), patterns=[NOTIF(d, x)]))]
+        elif outcome == 'raise':
+            e = value.t
+            out += [('exhaustion-outside-a-one-of-fails-the-run|C11,C05', z3.Not(sub.is_oneof)),
+                    ('the-run-is-woken-before-raising|C02', notifies(it, effects, 'run'))]
+        else:
+            out.append(('exhaustion-has-an-outcome|C11', False))
+        if e is not None:
+            out.append(('exhaustion-error-is-RecurrentSubgraphDoesNotHaveResultError|C11,C05', z3.And(
+                PyV.is_exc(e), PyV.ecls(e) == z3.IntVal(RECERR))))
+            out.append(('error-only-when-no-default-applies|C11', z3.Not(z3.And(
+                use_default, PyV.is_rec(T(final, st)) if final is not None else True))))
         return out
